@@ -53,7 +53,9 @@ size_t gclmulchunker::next_cut(const py::buffer& buffer, bool final = false) {
             return size / 2;
         else
             return max_length;
-    } else if (!final && size < max_length)
+    } else if (!final && size < ((max_length + 3) & ~static_cast<size_t>(3)))
+        // The scan below reads the 8-byte window that ends at the first multiple of 4
+        // not below max_length, wait until the whole window has arrived
         return 0;
 
     for (i = 4; i < max_length; i += 4) {
